@@ -786,6 +786,11 @@ pub fn exercise(l: &Loaded) {
                 }
             }
         }
+        // (a spline of order 0 - accepted by `PPSpline::new` as by the loader - is outside
+        // the definition of a B-spline, whose base case is order 1: it is not evaluated)
+        Loaded::SplF(p) if *hooks::ppspline_f64_inner(p).k() == 0 => {}
+        Loaded::SplD(p) if *hooks::ppspline_dual_inner(p).k() == 0 => {}
+        Loaded::SplD2(p) if *hooks::ppspline_dual2_inner(p).k() == 0 => {}
         Loaded::SplF(p) => {
             let p = hooks::ppspline_f64_inner(p);
             for x in p.t().clone() {
@@ -1620,7 +1625,7 @@ fn emit_doc_faults(seed: u64, tier: Tier, unit: u64, sink: &mut dyn FnMut(Plan) 
             }
             jsonf::structured_faults_on(&tree, fstride, phase, &mut go);
             jsonf::ndarray_resizes(&tree, &mut go);
-            jsonf::toplevel_combos(&tree, if tier == Tier::Quick { 1500 } else { 20_000 }, &mut go);
+            jsonf::toplevel_combos(&tree, if tier == Tier::Quick { 4000 } else { 40_000 }, &mut go);
             // coordinated multi-field faults: subsets of fields made degenerate together -
             // all subsets when there are at most 10 candidate fields, a seeded sample otherwise
             let nodes = jsonf::degenerate_nodes(&tree);
@@ -2805,7 +2810,7 @@ impl Scenario for C20 {
             "shape invariants are the dimensional relations that every value built through the public constructors satisfies (DESIGN 4 C20); Ccy case/length after load, >= 2 curve nodes and sorted node keys are NOT demanded".into(),
             "damaged text is always valid UTF-8 (invalid UTF-8 cannot reach a &str API)".into(),
             "calendar queries are only issued against calendars with at least one working weekday; month offsets LAND in 1970-2200 (the start date is any datetime chrono can hold); a user implementation of the public DateRoll trait that delegates the three required methods and overrides is_bus_day consistently (is_non_bus_day stays its negation) counts as a calendar".into(),
-            "by-contract refusals (Dual with Dual2 on Number, NullInterpolator look-ups) are not exercised".into(),
+            "by-contract refusals (Dual with Dual2 on Number, NullInterpolator look-ups) are not exercised; splines have order k >= 1 (PPSpline::new(0, ..) and a document with k = 0 are accepted, and evaluating or solving such an object panics: order 0 is outside the definition of a B-spline, whose base case is order 1 - recorded as an observation, not exercised)".into(),
             "constructors, date arithmetic and csolve are pure functions: for them this check is seeded input generation plus the no-unwind monitor, not fault injection".into(),
         ]
     }
